@@ -8,5 +8,6 @@ INVARIANT ListBeyondInput
 INVARIANT IdIs32
 INVARIANT ManyEntries
 INVARIANT SigLengthSweep
+INVARIANT PairsAreOpaque
 INVARIANT EmitCase
 CHECK_DEADLOCK FALSE
